@@ -393,7 +393,17 @@ func runEntryStream(o Opts, r *Rng, n int) {
 	w := NewCaseWriter(o.Out, "ecases", hdrE, "emism", 40)
 	w.Type = "ecase"
 	w.Rule = "E: an algorithm entry point or distribution constructor called with an option combination; non-trivial iff the call returned without panic and at least one input-role object is non-empty"
-	cases := entry.Generate(r, n)
+	// round 7: the directed degenerate inputs (entry/edge.go) run first on every run
+	cases := entry.EdgeCases(r.Split())
+	w.Extra["directed_degenerate_cases"] = len(cases)
+	for _, c := range cases {
+		w.Count("E:edge:" + c.Entry)
+	}
+	// round 7: the constructors with a flag (entry/ctor.go), every (flag, argument kind) combination on every run
+	cc := entry.CtorCases(r.Split())
+	w.Extra["flagged_constructor_cases"] = len(cc)
+	cases = append(cases, cc...)
+	cases = append(cases, entry.Generate(r, n)...)
 	w.Extra["entry_points"] = entry.EntryNames()
 	w.Extra["option_combinations_total"] = entry.NumCombos()
 	nrep := 0
@@ -413,6 +423,57 @@ func runEntryStream(o Opts, r *Rng, n int) {
 		w.Add(c.Coq(), map[string]interface{}{"stream": "E", "entry": c.Entry, "opts": c.Opts, "outcome": c.Outcome,
 			"changed": c.Changed, "spec": c.Spec, "full": json.RawMessage(js)},
 			fmt.Sprintf("%s|%s", c.Entry, c.Opts), c.Outcome != "panic")
+	}
+	if err := w.Flush(); err != nil {
+		Die("flush: %v", err)
+	}
+	runCtorStream(o, cases)
+}
+
+// ---------------------------------------------------------------- stream K (round 7): ModelCtor against the flagged constructors
+const hdrK = "From Coq Require Import ZArith List Bool Floats.\nFrom ADV Require Import C12.ModelCtor C12.CorrK.\nImport ListNotations.\n"
+
+// runCtorStream turns the stream-E cases of the constructors with a flag (ids 170..179) and of bfgs.Run with the
+// option-carried Hessian{B0} into cases for CorrK.kcheck (the model predicts the ownership structure).
+func runCtorStream(o Opts, cases []entry.Case) {
+	w := NewCaseWriter(o.Out, "kcases", hdrK, "kmism", 40)
+	w.Type = "kcase"
+	w.Rule = "K: a constructor with a flag (both values, every argument kind) or bfgs.Run with Hessian{B0}; non-trivial iff the call returned a result (constructors) / the option was present (bfgs)"
+	for _, c := range cases {
+		obj := map[string]*entry.Obj{}
+		for i := range c.Objs {
+			obj[c.Objs[i].Name] = &c.Objs[i]
+		}
+		var term string
+		nontrivial := false
+		switch {
+		case c.ID >= 170 && c.ID <= 179:
+			a := obj["arg"]
+			if a == nil {
+				continue
+			}
+			r1, a2, sh := obj["result-after-writing-arg"], obj["arg-after-writing-result"], obj["shared-storage"]
+			if r1 == nil || a2 == nil || sh == nil {
+				// the constructor returned an error: only the argument is compared
+				term = fmt.Sprintf("mkK %d%%nat %s false %s %s [] [] [] [] false", c.ID, B(c.OptMask&1 == 1), FList(a.Before), FList(a.After))
+			} else {
+				nontrivial = true
+				term = fmt.Sprintf("mkK %d%%nat %s true %s %s %s %s %s %s %s", c.ID, B(c.OptMask&1 == 1), FList(a.Before), FList(a.After),
+					FList(r1.Before), FList(r1.After), FList(a2.Before), FList(a2.After), B(len(sh.After) > 0 && sh.After[0] != 0))
+			}
+		case c.ID == 4 && obj["Hessian.Value"] != nil:
+			a := obj["Hessian.Value"]
+			nontrivial = true
+			// flag: the call failed (singular / mismatching B0)
+			term = fmt.Sprintf("mkK 4%%nat %s false %s %s [] [] [] [] false", B(c.Outcome != "ok"), FList(a.Before), FList(a.After))
+		default:
+			continue
+		}
+		w.Count("K:" + c.Entry)
+		w.Count("K:outcome:" + c.Outcome)
+		js, _ := c.ToJSON()
+		w.Add(term, map[string]interface{}{"stream": "E", "entry": c.Entry, "opts": c.Opts, "outcome": c.Outcome,
+			"changed": c.Changed, "spec": c.Spec, "full": json.RawMessage(js)}, fmt.Sprintf("%s|%s|%s", c.Entry, c.Opts, c.Outcome), nontrivial)
 	}
 	if err := w.Flush(); err != nil {
 		Die("flush: %v", err)
@@ -646,7 +707,10 @@ func hunt(o Opts) int {
 	if f := appendCapacityProbe(); f != nil {
 		add(*f)
 	}
-	for _, c := range entry.Generate(rng.Split(), o.N*2+entry.NumCombos()) {
+	// round 7: the directed degenerate inputs and the constructors with a flag first
+	ecs := append(entry.EdgeCases(rng.Split()), entry.CtorCases(rng.Split())...)
+	ecs = append(ecs, entry.Generate(rng.Split(), o.N*2+entry.NumCombos())...)
+	for _, c := range ecs {
 		if len(c.Changed) > 0 {
 			sc := entry.Shrink(c)
 			js, _ := sc.ToJSON()
